@@ -228,7 +228,7 @@ pub const ANNEX_R: &str = "00033C8616B06704813203DFD00965022ED15975C662337AED648
 pub fn run(ctx: &Arc<Ctx>) {
     refmodels::selftest::run(&["sm3", "sm9"]).unwrap_or_else(|e| ctx.machinery_error(format!("reference self-test failed: {}", e)));
     let n = sm9::params().n.clone();
-    ctx.set_rule("signing: master keys {Annex ks, 1, N-2, seeded, H1(ID), 2^256-H1(ID)+{-1,0,1}} x nonces r (via the RNG seam) {1,2,N-2,Annex r,2^255,seeded x2} at one identity/message, identities {Alice,'',64 bytes,seeded} x message lengths {0,1,20,55,56,64,1024} at one (master, r), key objects holding Ppub-s / ds in Jacobian representations with structured Z (Z in Fp, purely imaginary, generic): (h,S) equals the reference signature for the accepted r (incl. the GM/T 0044.5 example), h in [1,N-1], S on the curve, the library verifies it. Verification: reference-made signatures must be accepted as they are and with S in another Jacobian representation; all 256 single-bit flips of h, h in {0,1,N-1,N,N+1,2^256-1,h+N}, S in {-S,2S,P1,ds,infinity,off-curve,(0,0)}, altered message / identity / master public key must be refused with an error, never a panic.");
+    ctx.set_rule("signing: master keys {Annex ks, 1, N-2, seeded, H1(ID), 2^256-H1(ID)+{-1,0,1}} x nonces r (via the RNG seam) {1,2,N-2,Annex r,2^255,seeded x2} at one identity/message, identities {Alice,'',64 bytes,seeded, 12 normalisation-sensitive variants of one name} x message lengths {0,1,20,55,56,64,1024} at one (master, r), key objects holding Ppub-s / ds in Jacobian representations with structured Z (Z in Fp, purely imaginary, generic): (h,S) equals the reference signature for the accepted r (incl. the GM/T 0044.5 example), h in [1,N-1], S on the curve, the library verifies it. Verification: reference-made signatures must be accepted as they are and with S in another Jacobian representation; all 256 single-bit flips of h, h in {0,1,N-1,N,N+1,2^256-1,h+N}, S in {-S,2S,P1,ds,infinity,off-curve,(0,0)}, altered message / identity / master public key must be refused with an error, never a panic.");
     let mut g = SplitMix::new(ctx.seed, "c09");
     // ks = H1(Alice||01): [H1]P2 + Ppub-s is then a doubling inside verification
     let masters: Vec<(String, BigUint)> = vec![("annex".into(), hb(ANNEX_KS)), ("1".into(), BigUint::one()), ("N-2".into(), &n - 2u32), ("seed".into(), g.nonzero_below(&n)), ("H1(ID)".into(), sm9::h1(b"Alice", sm9::HID_SIGN))];
@@ -248,6 +248,24 @@ pub fn run(ctx: &Arc<Ctx>) {
         for ml in mlens {
             cases.push(Case::Sign { ks: ANNEX_KS.into(), id: id.into(), msg_len: ml, r: ANNEX_R.into(), tag: format!("id={}/mlen={}", if id.starts_with("len:") { id } else { "text" }, ml) });
         }
+    }
+    // identities whose H1 is extreme: the largest and the smallest of 400 candidates and one above 2^257/3 (the
+    // verifier multiplies P2 by H1: scalars near N, with a top bit pattern a signed-digit recoding extends by one digit)
+    {
+        let mut hs: Vec<(BigUint, String)> = (0..400).map(|i| format!("user{}", i)).map(|s| (sm9::h1(s.as_bytes(), sm9::HID_SIGN), s)).collect();
+        hs.sort();
+        let third: BigUint = (BigUint::one() << 257usize) / 3u32;
+        let mut picks = vec![hs[0].1.clone(), hs[1].1.clone(), hs[hs.len() - 1].1.clone(), hs[hs.len() - 2].1.clone()];
+        if let Some((_, s)) = hs.iter().find(|(h, _)| *h > third) {
+            picks.push(s.clone());
+        }
+        for id in picks {
+            cases.push(Case::Sign { ks: ANNEX_KS.into(), id, msg_len: 20, r: ANNEX_R.into(), tag: "id=extreme-H1".into() });
+        }
+    }
+    // identities a normalising implementation would alter
+    for id in crate::alpha::NORM_IDS {
+        cases.push(Case::Sign { ks: ANNEX_KS.into(), id: id.into(), msg_len: 20, r: ANNEX_R.into(), tag: "id=normalisation-sensitive".into() });
     }
     // key objects in other Jacobian representations (the fields are public; extract_key and decoders produce both kinds)
     for (i, zq) in Z2_NAMES.iter().enumerate() {
